@@ -11,6 +11,7 @@ import (
 	"fmt"
 	"os"
 	"path/filepath"
+	"runtime"
 	"sync"
 	"sync/atomic"
 	"testing"
@@ -153,7 +154,7 @@ func TestVerifC03(t *testing.T) {
 		results := make([]rdRes, nreaders)
 		lastOf := func(i int) int64 { return atomic.LoadInt64(&results[i].last) }
 		roSeen := make([]int32, nreaders)
-		var roPhase, roGen int32
+		var roPhase, roGen, roTurn int32
 		var rwg sync.WaitGroup
 		for i := 0; i < nreaders; i++ {
 			start := int64(r.intn(pre + 6))
@@ -182,6 +183,11 @@ func TestVerifC03(t *testing.T) {
 			rwg.Add(1)
 			go func(i int, rd *Reader, expect, lo, hi int64) {
 				defer rwg.Done()
+				defer func() {
+					if x := recover(); x != nil {
+						setViol("reader-panic", fmt.Sprintf("committed reader %d (last delivered %d, high watermark %d) panicked: %v", i, lastOf(i), l.HighWatermark(), x))
+					}
+				}()
 				hb := make([]byte, 28)
 				for {
 					gen0, phase0 := atomic.LoadInt32(&roGen), atomic.LoadInt32(&roPhase)
@@ -194,8 +200,18 @@ func TestVerifC03(t *testing.T) {
 							if leo := l.NewestOffset(); atomic.LoadInt64(&results[i].last) < leo && phase0 == 1 && atomic.LoadInt32(&roPhase) == 1 && atomic.LoadInt32(&roGen) == gen0 {
 								setViol("readonly-end-before-delivery", fmt.Sprintf("reader %d was told the read-only log has ended after offset %d; the log ends at %d and the high watermark is %d", i, results[i].last, leo, l.HighWatermark()))
 							}
+							turn := atomic.LoadInt32(&roTurn)
 							atomic.AddInt32(&roSeen[i], 1)
-							time.Sleep(200 * time.Microsecond)
+							// during the read-only phase wait at the gate, so that the next read starts at
+							// the very moment the driver moves the HW
+							for n := 0; atomic.LoadInt32(&roPhase) == 1 && atomic.LoadInt32(&roTurn) == turn && ctx.Err() == nil; n++ {
+								if n%500 == 499 {
+									runtime.Gosched()
+								}
+							}
+							if atomic.LoadInt32(&roPhase) != 1 {
+								time.Sleep(200 * time.Microsecond)
+							}
 							continue
 						}
 						return
@@ -291,6 +307,57 @@ func TestVerifC03(t *testing.T) {
 			stats["lockstep-hw-moves"]++
 			statsMu.Unlock()
 		}
+		// burst phase: several SetHighWatermark calls with different values are released at the same
+		// moment (they all wait for the log's lock, which the driver holds, as an append or a clean
+		// would); whatever their order, the HW ends at the largest value and never goes back
+		bursts := vEnvInt("VERIF_BURSTS", 40)
+		violMu.Lock()
+		clean = viol == ""
+		violMu.Unlock()
+		for b := 0; b < bursts && clean; b++ {
+			appendN(4)
+			end = l.NewestOffset()
+			base := l.HighWatermark()
+			var bw sync.WaitGroup
+			l.mu.Lock()
+			for k := int64(1); k <= 4; k++ {
+				bw.Add(1)
+				go func(h int64) {
+					defer bw.Done()
+					l.SetHighWatermark(h)
+					if now := l.HighWatermark(); now < h {
+						setViol("hw-below-set", fmt.Sprintf("SetHighWatermark(%d) returned and HighWatermark() is %d", h, now))
+					}
+				}(base + k)
+			}
+			time.Sleep(200 * time.Microsecond) // let them reach the lock
+			l.mu.Unlock()
+			bw.Wait()
+			if now := l.HighWatermark(); now != base+4 {
+				setViol("hw-backwards", fmt.Sprintf("four concurrent SetHighWatermark calls with %d..%d: the high watermark ends at %d", base+1, base+4, now))
+			}
+			l.SetHighWatermark(end)
+			// readers catch up before the next burst
+			deadline = time.Now().Add(2 * time.Second)
+			for time.Now().Before(deadline) {
+				all := true
+				for i := range results {
+					if lastOf(i) < end {
+						all = false
+					}
+				}
+				if all {
+					break
+				}
+				time.Sleep(50 * time.Microsecond)
+			}
+			violMu.Lock()
+			clean = viol == ""
+			violMu.Unlock()
+			statsMu.Lock()
+			stats["hw-bursts"]++
+			statsMu.Unlock()
+		}
 		// read-only phase: the log is set read-only while the HW is behind the log end and every
 		// reader has consumed up to the HW; then the HW moves to the end, racing with the readers'
 		// waits.  Each reader must deliver the rest before it is told that the log has ended.
@@ -299,22 +366,32 @@ func TestVerifC03(t *testing.T) {
 		clean = viol == ""
 		violMu.Unlock()
 		for step := 0; step < rosteps && clean; step++ {
-			atomic.StoreInt32(&roPhase, 0)
-			atomic.AddInt32(&roGen, 1)
+			atomic.AddInt32(&roGen, 1) // readers are parked (first step) or wait at the gate: none is inside a read
 			l.SetReadonly(false)
 			hwOld := l.HighWatermark()
-			appendN(1 + r.intn(3))
+			appendN(2 + r.intn(3))
 			end = l.NewestOffset()
 			// readers are all at hwOld (previous step ended with everything delivered)
 			l.SetReadonly(true)
-			atomic.StoreInt32(&roPhase, 1)
 			for i := range roSeen {
 				atomic.StoreInt32(&roSeen[i], 0)
 			}
-			for spin := r.intn(300); spin > 0; spin-- {
-				_ = atomic.LoadInt64(&appended)
+			atomic.StoreInt32(&roPhase, 1)
+			atomic.AddInt32(&roTurn, 1) // readers waiting at the gate start reading now
+			for start, d := time.Now(), time.Duration(step%40)*50*time.Nanosecond; time.Since(start) < d; {
 			}
-			l.SetHighWatermark(end)
+			// the HW reaches the end in single steps with short random pauses, so that readers are
+			// between "consumed up to the HW I saw" and "wait for a change" when the next step lands
+			if step%2 == 0 {
+				l.SetHighWatermark(end)
+			} else {
+				for h := hwOld + 1; h <= end; h++ {
+					for spin := r.intn(300); spin > 0; spin-- {
+						_ = atomic.LoadInt64(&appended)
+					}
+					l.SetHighWatermark(h)
+				}
+			}
 			deadline = time.Now().Add(2 * time.Second)
 			got := false
 			for !got && time.Now().Before(deadline) {
@@ -344,6 +421,7 @@ func TestVerifC03(t *testing.T) {
 			statsMu.Unlock()
 		}
 		atomic.StoreInt32(&roPhase, 0)
+		atomic.AddInt32(&roTurn, 1)
 		l.SetReadonly(false)
 		cancel()
 		rwg.Wait()
